@@ -738,6 +738,60 @@ def w20(ctx, rid):
         ctx.ok(rid, key, des[0].where(), 'every answer is the result of the deserializer')
 
 
+def w21(ctx, rid):
+    """`migration preserves every record`: a record header is built from scratch (record::Header::new, flags = 0) only where a new
+    record is created.  Code that transforms an existing header (key reversal of the v0 -> v1 migration, re-stamping in the
+    tools writer) keeps the value and patches fields - a rebuilt header loses the deletion flag, and deleted keys come back as
+    live empty records"""
+    prog = ctx.prog
+    n = 0
+    for f in prog.fns.values():
+        if '/tests' in f.file or '::tests::' in f.id:
+            continue
+        for c in f.calls:
+            if c.bb not in f.reachable() or c.name != 'new' or not any(t == 'record::record::Header::new' for t in prog.resolve(c)):
+                continue
+            n += 1
+            root = prog.fns[prog.fns[f.id].root]
+            key = 'header-built-only-for-new-records|%s' % root.id
+            takes_header = any('record::record::Header' in l['s'] for l in root.locals[1:root.argc + 1]) or (root.j.get('impl_self') or {}).get('h') == 'record::record::Header' and root.argc >= 1 and root.locals[1]['s'].lstrip('&mut ').startswith('record::record::Header')
+            if takes_header:
+                ctx.bad(rid, key, c.where(), '`%s` receives a record header and builds a fresh one with Header::new: fields that are not passed on (the flags with the deletion bit) are lost' % root.id.split('::')[-1])
+            else:
+                ctx.ok(rid, key, c.where(), 'a new record is created here')
+    if n < 1:
+        raise core.AnchorLost('calls of record::Header::new: %d' % n)
+
+
+def w22(ctx, rid):
+    """a tool run that reports success has written its whole output: the tools writer hands every byte to the file before the
+    driver returns Ok.  If the writer buffers (BufWriter and the like), every Ok return of process_blob_with passes a successful
+    flush - the flush in Drop swallows I/O errors, and a failed tail write would leave a cut output behind a reported success"""
+    prog = ctx.prog
+    adt = prog.adts.get('tools::blob_writer::BlobWriter')
+    if adt is None:
+        raise core.AnchorLost('BlobWriter')
+    ftys = [fl['ty']['s'] for v in adt['variants'] for fl in v['fields']]
+    buffered = [t for t in ftys if 'BufWriter' in t or 'LineWriter' in t]
+    key = 'output-written-through|tools::blob_writer::BlobWriter'
+    f = prog.fns.get('tools::utils::process_blob_with')
+    if f is None:
+        raise core.AnchorLost('process_blob_with')
+    if not buffered:
+        ctx.ok(rid, key, '', 'the writer holds the plain file (%s): every write is a write to the file' % [t for t in ftys if 'File' in t][:1])
+        return
+    S = core.Summ(prog, lambda c: c.name in ('flush', 'into_inner', 'sync_all', 'sync_data') and ('BufWriter' in c.full or 'Write' in (c.trait or '') or 'File' in c.path))
+    ev = set(S.events(f))
+    writes = [c for c in f.calls if c.bb in f.reachable() and c.name in ('write_record', 'write_header') and 'BlobWriter' in c.path]
+    exits = [bb for (bb, k, _) in core.exit_defs(f) if k in ('ok', 'fwd') and bb in f.reachable()]
+    starts = [x for c in writes for x in f.after(c.bb)]
+    unflushed = [e for e in exits if e in f.reach_from(starts, avoid_enter=ev)]
+    if writes and not unflushed:
+        ctx.ok(rid, key, f.where(), 'buffered writer, flushed after the last write on every Ok path of the driver')
+    else:
+        ctx.bad(rid, key, f.where(), 'the tools writer buffers its output (%s) and the driver can return Ok without a successful flush: the tail of the output is written in Drop, where a write error is ignored - recovery / migration report success on a cut output' % buffered[0])
+
+
 RULES = [
     Rule('C16.W1', 'the tools\' record writer stamps its own position into blob_offset (and recomputes the header CRC) before serialising a header', w1, 1),
     Rule('C16.W2', 'the recovered output is re-validated whenever validation was requested', w2, 1),
@@ -758,5 +812,7 @@ RULES = [
     Rule('C16.W18', 'with skipping requested a record-level validation error always leads on to the next record', w18, 2),
     Rule('C16.W19', 'every header preprocessor of recovery / migration builds the output header from the input header', w19, 2),
     Rule('C16.W20', 'Meta::from_raw answers only with what the deserializer produced', w20, 1),
+    Rule('C16.W21', 'a record header is built from scratch only where a new record is created', w21, 1),
+    Rule('C16.W22', 'a buffering tools writer is flushed before the driver reports success', w22, 1),
     Rule('C16.W7', 'the index tools load through the validating loader and validate every reported header', w7, 2),
 ]
